@@ -75,6 +75,14 @@ def run(ctx):
             ctx.requires("C17.G.siblings-only-at-origin", f, blk, "self.kind = Multiple(mapped)", [r"is_empty\(self\.locations\)=True"])
         n = len(ctx.find_calls(f, r"ErrorUnknownField::add_alts$"))
         ctx.ob("C17.G.siblings-shape", f.key, "add_alts call", n == 1, "%d" % n)
+    callers = sorted({b.owner_fn or b.key for b in ctx.all_bodies(core) if not scan.is_test_body(b) and not b.derived and ctx.find_calls(b, r"ErrorUnknownField::add_alts$")})
+    ctx.ob("C17.who.add-alts-callers", K + "ErrorUnknownField::add_alts", "callers", callers == ["darling_core::error::Error::add_sibling_alts_for_unknown_field"],
+           "add_alts is reachable from %s; only the guarded entry add_sibling_alts_for_unknown_field may call it" % callers)
+    f = ctx.fn("darling_core::error::Error::add_sibling_alts_for_unknown_field")
+    if f:
+        rec = [c.key for c in ctx.closures_of(f) if ctx.find_calls(c, r"^darling_core::error::Error::add_sibling_alts_for_unknown_field$")]
+        ctx.ob("C17.G.children-recurse-through-guard", f.key, "children of a bundle go through the guarded entry", len(rec) == 1,
+               "each child of a Multiple bundle must be re-checked by add_sibling_alts_for_unknown_field itself (its own locations.is_empty() guard); closures recursing: %s" % rec)
     # type fact: only UnknownField carries a suggestion
     adts = {a["path"]: a for a in core["adts"]}
     ek = adts.get("darling_core::error::kind::ErrorKind")
